@@ -86,6 +86,16 @@ prop('C01', 'other',
      'Newton convergence from a flat start and the Newton-Krylov variant are outside; <= 3 buses / 4 branches.',
      'symbolic execution of the real residual assembly + z3 identity with an independent physics oracle', 'DESIGN.md 3/C01')
 
+prop('C11', 'other',
+     'Real System.calc_pu_coeff executed on models of every connection shape (shunt, series, dc one-/two-node, with and without '
+     'own ratings) whose ratings and bus bases are symbols: z3 decides every coefficient is the textbook device-base/system-base '
+     'ratio and each flagged parameter gets exactly its own with v = vin*k; real Model.alter/set and GroupBase.alter sequences with '
+     'symbolic values and factors keep v = vin*k for both attr modes, export the altered input value, leave other devices untouched, '
+     'reach dae.Tf and the mass matrix for time constants; _p_restore gives v = vin; structural pass over every flagged parameter of '
+     'every shipped model.',
+     'bases > 0; sequences <= 3 calls on 2 devices; xlsx/json writers (file I/O) outside; kvxopt mass matrix stubbed in exploration.',
+     'symbolic execution of real conversion/alteration code + z3 identities', 'DESIGN.md 3/C11')
+
 ORDER = ['C%02d' % i for i in range(1, 21)]
 checks, na = [], []
 for pid in ORDER:
